@@ -518,11 +518,63 @@ func init() {
 				}
 			}
 		}
+		// spelling matrix: the same version twice in one expression (with / without an exception, with / without '+') against
+		// lists that satisfy the two occurrences by two different entries; every mix of the interchangeable spellings of the
+		// four positions must give one and the same answer
+		for _, id := range tblActive {
+			b := strings.TrimSuffix(id, "-only")
+			if b == id || !implValid(b) {
+				continue
+			}
+			sp := []string{b, id} // X, X-only
+			spP := []string{b + "+", b + "-or-later"}
+			if !implValid(spP[0]) || !implValid(spP[1]) {
+				spP = nil
+			}
+			type shape struct{ e, l func(s [4]string) (string, []string) }
+			mk := func(s [4]string, withExc string, op string, plusList bool) (string, []string) {
+				e := s[0] + " WITH " + withExc + op + s[1]
+				l := []string{s[2], s[3] + " WITH " + withExc}
+				if plusList {
+					l = []string{s[2], s[3] + " WITH " + withExc, "MIT"}
+				}
+				return e, l
+			}
+			for _, op := range []string{" AND ", " OR "} {
+				for _, set := range [][]string{sp, spP} {
+					if set == nil {
+						continue
+					}
+					var ref string
+					first := true
+					for m := 0; m < 16; m++ {
+						s4 := [4]string{set[m&1], set[(m>>1)&1], set[(m>>2)&1], set[(m>>3)&1]}
+						e, l := mk(s4, exc, op, m%3 == 0)
+						r := implSat(e, l)
+						res.Evaluations++
+						count("spelling_matrix")
+						if first {
+							ref, first = r.String(), false
+							continue
+						}
+						if r.String() != ref {
+							fail(failure{Stream: "oracle", What: "a mix of interchangeable spellings of one version (twice in the expression, twice in the list) changes Satisfies", Case: &kase{Expr: e, ExprHex: hx(e), Allowed: l, Extra: map[string]string{"other_expr": set[0] + " WITH " + exc + op + set[0], "other_list": hxl([]string{set[0], set[0] + " WITH " + exc})}}, Impl: r.String(), Expected: ref})
+							break
+						}
+					}
+				}
+			}
+		}
 		for _, id := range ids {
 			isActive := activeSet[id]
 			pairs := [][2]*term{
 				{mkTerm(id, "", true, "", -1), mkTerm(id, "-or-later", false, "", -1)},
 				{mkTerm(id, "", false, "", -1), mkTerm(id, "-only", false, "", -1)},
+			}
+			if cm := rng.Intn(3); rng.Intn(2) == 0 {
+				// the same pairs with the id typed in another letter case
+				pairs = append(pairs, [2]*term{mkTerm(id, "", true, "", cm), mkTerm(id, "-or-later", false, "", cm)},
+					[2]*term{mkTerm(id, "", false, "", cm), mkTerm(id, "-only", false, "", cm)})
 			}
 			if isActive {
 				for _, pr := range pairs {
@@ -665,6 +717,29 @@ func init() {
 						}
 						pairs = append(pairs, [2]call{{qq, []string{e0}}, {qq, []string{e1}}}, [2]call{{e0, []string{qq}}, {e1, []string{qq}}},
 							[2]call{{e0 + "+", []string{qq}}, {e1 + "+", []string{qq}}})
+					}
+				}
+			}
+			if !isExc {
+				// the same id twice in one expression, once in the list's spelling and once re-cased (per-expression memos),
+				// in the spellings that have side effects in the scanner (-or-later, '+')
+				fam := sameFamilyIDs(strings.TrimSuffix(id, "-or-later"))
+				for _, suf := range []string{"", "-or-later", "+"} {
+					a0, a1 := id+suf, v+suf
+					if !implValid(a0) || !implValid(a1) {
+						continue
+					}
+					lists := [][]string{{"ISC", a0}, {"MIT", "ISC"}}
+					for j := 0; j < 2 && len(fam) > 0; j++ {
+						if q := pick(fam); !strings.HasSuffix(q, "+") && implValid(q) {
+							lists = append(lists, []string{q, "ISC"}, []string{q, "MIT"})
+						}
+					}
+					for _, l := range lists {
+						pairs = append(pairs,
+							[2]call{{"(" + a0 + " AND MIT) OR (" + a0 + " AND ISC)", l}, {"(" + a0 + " AND MIT) OR (" + a1 + " AND ISC)", l}},
+							[2]call{{"(" + a0 + " AND MIT) OR (" + a0 + " AND ISC)", l}, {"(" + a1 + " AND MIT) OR (" + a0 + " AND ISC)", l}},
+							[2]call{{a0 + " AND " + a0, l}, {a1 + " AND " + a0, l}})
 					}
 				}
 			}
